@@ -155,6 +155,12 @@ def named(R, b, v, bs, sk, nf, sp, fields, container, variant_ident):
         for r in ALL:
             for e in nf.errors:
                 R.bad(r + ".SKELETON", body, "cannot establish the shape of the derived code%s: %s" % (where, e), b.span)
+        # what can be said without the shape: with deny_unknown_fields every member must be looked at; code that never steps
+        # through the object (no `next` on its iterator at all) cannot refuse an unknown key
+        if container["deny"] is not None and any("found 0" in e and "loop over the map entries" in e for e in nf.errors) \
+                and not any(n_["kind"] == "Map::Iter" for n_ in bs.nexts):
+            R.add("C09.FALLBACK")
+            R.bad("C09.FALLBACK", body, "the members of the object are never visited although deny_unknown_fields asks for every unknown key to be refused%s" % where, b.span)
         return
     live = [f for f in fields if not f["skipped"]]
     # ----- C07: arms ↔ effective keys, in declaration order; each arm fills its own field only
